@@ -1436,6 +1436,9 @@ class UserActions(object):
     summary_tables = {sc.parentId for c in col_recs for sc in c.summaryGroupByColumns}
     for tbl in sorted(summary_tables):
       for section in tbl.viewSections:
+        if section == tbl.rawViewSectionRef:
+          # The raw section stays with its table: both go away once the table is unused.
+          continue
         source_cols = [f.colRef.summarySourceCol for f in section.fields]
         new_groupby_cols = [int(c) for c in source_cols if c and c not in removed_groupby_cols]
         self.UpdateSummaryViewSection(int(section), new_groupby_cols)
